@@ -106,3 +106,35 @@ def snippet_prefixes():
                     out.append(("prefix+nl", full[:b] + "\n"))
             out.append(("full", full + "\n}\n" if ctx != "%s" else full + "\n"))
     return out
+
+
+SOUP = ["int", "char", "\t", " ", "a", "b", ",", ";", "(", ")", "{", "}", "\n", "*", "=", "1", "[", "]", "#define", "#if", "#endif", "if", "else",
+        "return", "struct", "typedef", "\"s\"", "?", ":", "->", "while", "static", "/* c */", "// c", "enum", "&&", "-", "sizeof", "#include",
+        "<a.h>", "...", "t_x", "'c'", "const", "void", "+", "++", "do", "goto", "union"]
+
+
+def soup(rng, maxlen_exhaustive, nsample, maxlen_sample):
+    """token soup: every sequence of up to `maxlen_exhaustive` lexemes of SOUP (a type name is followed
+    by a tab so that words do not glue), plus `nsample` random longer ones; file level and function body"""
+    import itertools
+    out = []
+
+    def render(seq):
+        txt = ""
+        for w in seq:
+            if txt and (txt[-1].isalnum() or txt[-1] == "_") and (w[0].isalnum() or w[0] == "_"):
+                txt += " "
+            txt += w
+        return txt
+    for n in range(1, maxlen_exhaustive + 1):
+        for seq in itertools.product(SOUP, repeat=n):
+            out.append(render(seq))
+    for _ in range(nsample):
+        out.append(render([rng.choice(SOUP) for _ in range(rng.randint(maxlen_exhaustive + 1, maxlen_sample))]))
+    res = []
+    for t in out:
+        res.append(("soup", t))
+    for t in out[:: 7]:
+        res.append(("soup-body", "int\tf(void)\n{\n\t" + t))
+        res.append(("soup-nl", t + "\n"))
+    return res
